@@ -1,0 +1,43 @@
+//go:build verif
+
+// Contracts for Segment.writePtr: what is emitted (C05).  PARTIAL - only the assertions below are
+// decided: at each of the three emission points (near pointer, far pointer with a one-word landing
+// pad, double-far pointer with a two-word landing pad) the words written decode, through the
+// independent spec functions of the encoding, to the object being pointed to.  The copy paths
+// (copyStruct, list copies) are passed through with their effects unknown; placement inside the
+// target segment's bounds is not decided here.
+package capnp
+
+//@ spec
+//@ // the near pointer word w, stored at paddr, resolves to address target and has the layout of raw
+//@ func nearTo(w rawPointer, paddr address, target address, raw rawPointer) bool {
+//@ 	return sKind(w) == sKind(raw) && w>>32 == raw>>32 && M(paddr)+8+8*M(sOff(w)) == M(target)
+//@ }
+//@ end
+
+//@ func Segment.writePtr -> err
+//@   props C04 C05 C16
+//@   partial
+//@   requires segOK(s) && off&7 == 0 && M(off)+8 <= M(len(s.data)) && wfPtr(src)
+//@   -- objects are word aligned (true of everything read from or allocated in a message, except the
+//@   -- struct views of primitive list elements, which are flagged isListMember and copied)
+//@   requires implies(src.seg != nil && src.flags.ptrType() == structPtrType && src.flags.structFlags()&isListMember == 0, src.off&7 == 0 && src.size.DataSize&7 == 0)
+//@   requires implies(src.seg != nil && src.flags.ptrType() == listPtrType, src.off&7 == 0)
+//@   -- near pointer: same segment; the word now stored in the slot resolves to the object
+//@   assert after "s.writeRawPointer(off, srcRaw.withOffset(nearPointerOffset(off, srcAddr)))" near: srcAddr&7 == 0 &&
+//@     nearTo(rawPointer(LE64(s.data, int(off))), off, srcAddr, srcRaw)
+//@   -- far pointer: the landing pad is one word in the target's segment holding a near pointer to the
+//@   -- object; the word now stored in the slot is a far pointer naming that segment and the pad
+//@   assert before "s.writeRawPointer(off, rawFarPointer(src.seg.id, padAddr))" farpad: padAddr&7 == 0 && srcAddr&7 == 0 &&
+//@     nearTo(rawPointer(LE64(src.seg.data, int(padAddr))), padAddr, srcAddr, srcRaw)
+//@   assert after "s.writeRawPointer(off, rawFarPointer(src.seg.id, padAddr))" far: sKind(rawPointer(LE64(s.data, int(off)))) == 2 && !sFarDouble(rawPointer(LE64(s.data, int(off)))) &&
+//@     sFarSeg(rawPointer(LE64(s.data, int(off)))) == uint32(src.seg.id) && 8*M(sFarPadWords(rawPointer(LE64(s.data, int(off))))) == M(padAddr)
+//@   -- double-far pointer: the pad's first word is a far pointer to the object's segment and address,
+//@   -- its second word the object's pointer with offset zero; the word now stored in the slot is a
+//@   -- double-far pointer naming the pad
+//@   assert before "s.writeRawPointer(off, rawDoubleFarPointer(padSeg.id, padAddr))" dfalign: padAddr&7 == 0 && srcAddr&7 == 0 && M(padAddr)+16 <= M(len(padSeg.data))
+//@   assert before "s.writeRawPointer(off, rawDoubleFarPointer(padSeg.id, padAddr))" dftag: rawPointer(LE64(padSeg.data, int(padAddr)+8)) == srcRaw && sOff(srcRaw) == 0
+//@   assert before "s.writeRawPointer(off, rawDoubleFarPointer(padSeg.id, padAddr))" dfpad: sKind(rawPointer(LE64(padSeg.data, int(padAddr)))) == 2 && !sFarDouble(rawPointer(LE64(padSeg.data, int(padAddr)))) &&
+//@     sFarSeg(rawPointer(LE64(padSeg.data, int(padAddr)))) == uint32(src.seg.id) && 8*M(sFarPadWords(rawPointer(LE64(padSeg.data, int(padAddr))))) == M(srcAddr)
+//@   assert after "s.writeRawPointer(off, rawDoubleFarPointer(padSeg.id, padAddr))" dfptr: sKind(rawPointer(LE64(s.data, int(off)))) == 2 && sFarDouble(rawPointer(LE64(s.data, int(off)))) &&
+//@     sFarSeg(rawPointer(LE64(s.data, int(off)))) == uint32(padSeg.id) && 8*M(sFarPadWords(rawPointer(LE64(s.data, int(off))))) == M(padAddr)
